@@ -5,7 +5,7 @@ Line-protocol driver for the RRT-as-oracle-computation model (`Model/RngPlan.lea
 Header: `rrtl [clock=<c>]` (`c` = the value the model's seed generator takes for the microsecond clock; the harness
 ignores it and uses the real clock).  One `run …` line per process (the global seed must precede every generator):
 
-    run dim=<d> lo=<b,..> hi=<b,..> boxes=<lo..,hi..;…|-> starts=<b,..;…> goals=<b,..;…> thr=<b> res=<b> range=<b>
+    run space=<rv|se2> dim=<d> lo=<b,..> hi=<b,..> boxes=<lo..,hi..;…|-> starts=<b,..;…> goals=<b,..;…> thr=<b> res=<b> range=<b>
         bias=<b> is=<0|1> seed=<n> budget=<n> hist=<[sc]+> ptc=<evals|iter> trace=<0|1>
 -/
 namespace OmplModel.Driver.RngPlanDrv
@@ -41,7 +41,7 @@ def kvs (ts : List String) : Option (List (String × String)) :=
     | _ => none
 
 def keys : List String :=
-  ["dim", "lo", "hi", "boxes", "starts", "goals", "thr", "res", "range", "bias", "is", "seed", "budget", "hist", "ptc",
+  ["space", "dim", "lo", "hi", "boxes", "starts", "goals", "thr", "res", "range", "bias", "is", "seed", "budget", "hist", "ptc",
    "trace"]
 
 def parseHist? (s : String) : Option (List Phase) :=
@@ -62,16 +62,19 @@ structure Job where
 
 def parseJob? (ts : List String) : Option Job := do
   let m ← kvs ts
-  if m.length != 16 then none
+  if m.length != 17 then none
   if !(keys.all fun k => (m.filter (·.1 == k)).length == 1) then none
   let get := fun k => (m.lookup k).getD ""
   let dim ← parseNat? (get "dim")
   if dim < 1 || dim > 8 then none
+  let se2 ← if get "space" == "rv" then some false else if get "space" == "se2" then some true else none
+  if se2 && dim != 2 then none
+  let n := if se2 then dim + 1 else dim
   let lo ← parseVec? dim (get "lo")
   let hi ← parseVec? dim (get "hi")
   let boxes ← parseVecs? (2 * dim) (get "boxes")
-  let starts ← parseVecs? dim (get "starts")
-  let goals ← parseVecs? dim (get "goals")
+  let starts ← parseVecs? n (get "starts")
+  let goals ← parseVecs? n (get "goals")
   if starts.isEmpty || goals.isEmpty then none
   let thr ← parseFloatBits? (get "thr")
   let res ← parseFloatBits? (get "res")
@@ -86,7 +89,7 @@ def parseJob? (ts : List String) : Option Job := do
   let trace ← parseBit? (get "trace")
   if !((List.range dim).all fun i => lo.getD i 0.0 < hi.getD i 0.0) then none
   if !(res > 0.0 && res < 1.0) then none
-  pure { P := { dim, lo, hi, starts, goals := goals.toArray, thr, res, range, bias, inter },
+  pure { P := { dim, se2, lo, hi, starts, goals := goals.toArray, thr, res, range, bias, inter },
          boxes := boxes.map fun b => (b.extract 0 dim, b.extract dim (2 * dim)),
          seed, budget, hist, iter, trace }
 
@@ -103,9 +106,9 @@ def showSection (dim : Nat) (e : EnvSt) (evals polls : Nat) (qhash : UInt64) (s 
       | none => ("0", "-", "none")
       | some (ap, d, p) =>
         (if ap then "1" else "0", floatBits ((r.solutionDifference).getD d),
-         s!"{p.length}:{hex16 (p.foldl (fun (h : UInt64) (x : Vec) => fnvVec h (x.extract 0 dim)) fnvInit)}")
+         s!"{p.length}:{hex16 (p.foldl (fun (h : UInt64) (x : Vec) => fnvVec h x) fnvInit)}")
     let th := s.ps.tree.foldl (fun (h : UInt64) (m : Motion) =>
-      fnvU64 (fnvVec h (m.state.extract 0 dim)) (match m.parent with | some p => (p + 1).toUInt64 | none => 0)) fnvInit
+      fnvU64 (fnvVec h m.state) (match m.parent with | some p => (p + 1).toUInt64 | none => 0)) fnvInit
     let _ := e
     s!"status={r.status} approx={approx} evals={evals} polls={polls} qhash={hex16 qhash} dif={dif} path={path} " ++
       s!"tree={s.ps.tree.size}:{hex16 th} lseed={s.ps.rngSeed}," ++
